@@ -62,9 +62,11 @@ TSolve == /\ Is("CostSolve")
           /\ IF ExactStored(Ev) # {} THEN hasBest' = TRUE /\ best' = BestOf(Ev)
              ELSE UNCHANGED <<hasBest, best>>
           /\ UNCHANGED exactCost
+(* clearQuery() + a new query on the same planner instance and definition (solutions cleared by the user) *)
+TRequery == Is("Requery") /\ best' = 0 /\ hasBest' = FALSE /\ nsol' = 0 /\ UNCHANGED exactCost
 TBad == /\ l <= NLog /\ Ev.e \in {"Hang", "Crash"} /\ l' = l + 1
         /\ Report({Ev.e}) /\ UNCHANGED <<best, hasBest, exactCost, nsol>>
-TNext == TReset \/ TSolve \/ TBad
+TNext == TReset \/ TSolve \/ TRequery \/ TBad
 TSpec == TInit /\ [][TNext]_tvars
 NotAccepted == l <= NLog
 ===============================================================================
